@@ -3,7 +3,9 @@ package atroll
 import (
 	"fmt"
 	"math"
+	"strconv"
 	"strings"
+	"time"
 
 	"verifh/atrun"
 	"verifh/hutil"
@@ -22,6 +24,8 @@ type Foreign struct {
 	Table string `json:"table"`
 	Key   []Val  `json:"key"`
 	Set   []Val  `json:"set,omitempty"` // the row after the write (non-key columns); nil = deleted
+	// Before: 0 = after phase one; i >= 1 = inside the global transaction, right before branch i-1 (during phase one)
+	Before int `json:"before,omitempty"`
 }
 
 // Delivery is one phase-two rollback delivery of a branch.
@@ -29,6 +33,9 @@ type Delivery struct {
 	Branch int  `json:"branch"` // index in Plan.Branches
 	Fault  int  `json:"fault"`  // -1: none; k: the k-th database call of the rollback fails
 	Drop   bool `json:"drop,omitempty"`
+	// Hold: another connection holds a row lock while this delivery runs ("undo": the branch's undo_log row, as a
+	// concurrent delivery of the same rollback does; "row": a business row the branch wrote); released afterwards
+	Hold string `json:"hold,omitempty"`
 }
 
 // Plan is a generated case before it is turned into an engine scenario.
@@ -73,18 +80,8 @@ func genTable(r *hutil.Rng, name string) *Table {
 	n := 1 + r.Intn(5)
 	for i := 0; i < n; i++ {
 		c := Col{Name: fmt.Sprintf("c%d", i+1)}
-		switch r.Intn(6) {
-		case 0:
-			c.Typ = "INT"
-		case 1:
-			c.Typ = "BIGINT"
-		case 2:
-			c.Typ = "DOUBLE"
-		case 3:
-			c.Typ = "TINYINT"
-		default:
-			c.Typ = "VARCHAR"
-		}
+		c.Typ = []string{"INT", "BIGINT", "DOUBLE", "TINYINT", "VARCHAR", "VARCHAR", "DECIMAL", "DATETIME", "DATE", "TIMESTAMP",
+			"CHAR", "TEXT", "VARBINARY", "BLOB", "FLOAT", "INT", "VARCHAR", "BIGINT"}[r.Intn(18)]
 		c.Nullable = r.Chance(1, 2)
 		t.Cols = append(t.Cols, c)
 	}
@@ -101,7 +98,27 @@ func genVal(r *hutil.Rng, c Col) Val {
 	if c.Nullable && r.Chance(1, 5) {
 		return vNull()
 	}
+	base := time.Date(2024, 2, 28, 23, 59, 59, 0, time.UTC)
 	switch c.Typ {
+	case "DECIMAL":
+		return vDec(float64(r.Intn(200000)-50000) / 100)
+	case "DATETIME":
+		return vTime(base.Add(time.Duration(r.Intn(200000))*time.Second + time.Duration(r.Intn(1000000))*time.Microsecond))
+	case "TIMESTAMP":
+		return vTime(base.Add(time.Duration(r.Intn(200000))*time.Second + time.Duration(r.Intn(1000))*time.Millisecond))
+	case "DATE":
+		return vTime(time.Date(2024, 2, 27+r.Intn(5), 0, 0, 0, 0, time.UTC))
+	case "VARBINARY", "BLOB":
+		n := 1 + r.Intn(6)
+		b := make([]byte, n)
+		for i := range b {
+			b[i] = []byte{0x00, 0xff, 0x80, 0x27, 0x5c, 0x41, 0x0a, 0x7f}[r.Intn(8)]
+		}
+		return vBytes(b)
+	case "FLOAT":
+		return vFloat(float64(float32(float64(r.Intn(4000)-1000) / 8)))
+	case "CHAR", "TEXT":
+		return vStr(names[r.Intn(len(names))] + fmt.Sprint(r.Intn(10)))
 	case "VARCHAR":
 		if r.Chance(1, 6) {
 			return vStr([]string{"ann1 ", "Ann1", "a_b", "x_##$$_y", "p,q;r:s", ""}[r.Intn(6)])
@@ -123,12 +140,25 @@ func genVal(r *hutil.Rng, c Col) Val {
 // a value next to v that coarse comparisons confuse with it
 func nearVal(r *hutil.Rng, c Col, v Val) (Val, bool) {
 	switch {
+	case v.K == "float" && c.Typ == "FLOAT":
+		if r.Chance(1, 2) {
+			return vFloat(float64(math.Nextafter32(float32(v.float()), float32(math.Inf(1))))), true
+		}
+		return vFloat(float64(math.Nextafter32(float32(v.float()), float32(math.Inf(-1))))), true
 	case v.K == "float":
 		f := v.float()
 		if r.Chance(1, 2) {
 			return vFloat(math.Nextafter(f, math.Inf(1))), true
 		}
 		return vFloat(math.Nextafter(f, math.Inf(-1))), true
+	case v.K == "dec":
+		f, _ := strconv.ParseFloat(v.V, 64)
+		return vDec(f + 0.01), true
+	case v.K == "time" && c.Typ == "DATETIME":
+		t, _ := parseTimeAny(v.V)
+		return vTime(t.Add(time.Microsecond)), true
+	case v.K == "bytes":
+		return Val{K: "bytes", V: v.V + "00"}, len(v.V) < 30
 	case v.K == "int" && c.Typ == "BIGINT":
 		return vInt(v.int() + int64(1-2*r.Intn(2))), true
 	case v.K == "str" && v.V != "":
@@ -184,7 +214,7 @@ func insertSQL(t *Table, rows []Row, params bool, withKey bool) (string, []atrun
 		vs = append(vs, r.Vals...)
 		var items []string
 		for _, v := range vs {
-			if params {
+			if params && v.bindable() {
 				items = append(items, "?")
 				args = append(args, v.arg())
 			} else {
@@ -349,7 +379,7 @@ func (g *genCtx) genStmt(t *Table, own func(i int) bool, explicit bool) Stmt {
 				v = rows[r.Intn(len(rows))].Vals[ci] // what some (perhaps matched) row already holds: that part of the image is unchanged
 			}
 			s.Set = append(s.Set, SetItem{Col: ci, Op: "val", V: v})
-			if r.Chance(1, 2) || v.K == "null" {
+			if r.Chance(1, 2) || v.K == "null" || !v.bindable() {
 				sets = append(sets, c.Name+" = "+v.lit())
 			} else {
 				sets = append(sets, c.Name+" = ?")
@@ -402,6 +432,10 @@ func genPlan(r *hutil.Rng, stream string, seed uint64, idx int) *Plan {
 	if r.Chance(1, 4) {
 		p.Config.Serializer = "protobuf"
 	}
+	if p.Config.Serializer == "" && r.Chance(1, 2) {
+		// Lz4 is the listed finding C08-lz4; protobuf runs stay uncompressed (one dimension at a time there)
+		p.Config.Compress = []string{"Gzip", "Zip", "Bzip2", "Deflate", "Zstd"}[r.Intn(5)]
+	}
 	dv, oc := !r.Chance(1, 4), !r.Chance(1, 3)
 	if stream == "c09" {
 		dv = true
@@ -449,7 +483,7 @@ func genPlan(r *hutil.Rng, stream string, seed uint64, idx int) *Plan {
 	// odd initial keys belong to the transaction, even ones to foreign writers (c01); c09/c10: everything is the transaction's
 	own := func(i int) bool { return !withForeign || i%2 == 1 || i > 6 }
 	nb := 1 + r.Intn(3)
-	if stream == "c09" || stream == "c10fault" || stream == "c10marker" || stream == "corrupt" {
+	if stream == "c09" || stream == "c10fault" || stream == "c10marker" || stream == "corrupt" || stream == "c10race" {
 		nb = 1
 	}
 	budget := 1 + r.Intn(5)
@@ -498,7 +532,12 @@ func genPlan(r *hutil.Rng, stream string, seed uint64, idx int) *Plan {
 			if i > 6 {
 				continue
 			}
-			p.Foreign = append(p.Foreign, g.foreignWrite(t, keyOf(t, i), r.Chance(1, 4)))
+			f := g.foreignWrite(t, keyOf(t, i), r.Chance(1, 4))
+			f.Before = r.Intn(len(p.Branches) + 2) // 0: after phase one; else before that branch, during phase one
+			if f.Before > len(p.Branches) {
+				f.Before = 0
+			}
+			p.Foreign = append(p.Foreign, f)
 		}
 		for b := len(p.Branches) - 1; b >= 0; b-- {
 			p.Deliver = append(p.Deliver, Delivery{Branch: b, Fault: -1})
@@ -508,6 +547,11 @@ func genPlan(r *hutil.Rng, stream string, seed uint64, idx int) *Plan {
 			for k := 0; k < 1+r.Intn(3); k++ {
 				p.Deliver = append(p.Deliver, Delivery{Branch: b, Fault: -1})
 			}
+		}
+	case "c10race":
+		p.Deliver = []Delivery{{Branch: 0, Fault: -1, Hold: []string{"undo", "undo", "row"}[r.Intn(3)]}, {Branch: 0, Fault: -1}}
+		if r.Chance(1, 3) {
+			p.Deliver = append(p.Deliver, Delivery{Branch: 0, Fault: -1})
 		}
 	case "c10fault":
 		p.Deliver = []Delivery{{Branch: 0, Fault: -1}} // the driver expands it: one plan per fault index
@@ -531,8 +575,13 @@ func (g *genCtx) fixedUpdate(t *Table, c *Cond) Stmt {
 	v := genVal(g.r, t.Cols[ci])
 	s.Set = []SetItem{{Col: ci, Op: "val", V: v}}
 	w, wa := whereSQL(t, c, false)
-	s.SQL = "UPDATE " + t.Name + " SET " + t.Cols[ci].Name + " = ? WHERE " + w
-	s.Args = append([]atrun.Arg{v.arg()}, wa...)
+	if v.bindable() {
+		s.SQL = "UPDATE " + t.Name + " SET " + t.Cols[ci].Name + " = ? WHERE " + w
+		s.Args = append([]atrun.Arg{v.arg()}, wa...)
+	} else {
+		s.SQL = "UPDATE " + t.Name + " SET " + t.Cols[ci].Name + " = " + v.lit() + " WHERE " + w
+		s.Args = wa
+	}
 	return s
 }
 
